@@ -148,5 +148,16 @@ def run(chk, facts, info):
     rule_r3(chk, facts)
     rule_r4(chk, facts)
     rule_r5(chk, facts)
+    # line:address entries of the listing and the debug files name the line the file counter stands at: the counter is saved
+    # and restored around INCLUDE and expansions exactly (same rule as C20-R4)
+    chk.rule('C19-R6', 'the physical line counter that listing lines and MAP/NoICE line:address entries are numbered with is '
+             'restored by every input-tag restorer from a field the constructor saved it into (C20-R4, applied to the '
+             'report outputs)', min_instances=6)
+    from . import c20
+    from .c12 import _Sub
+    P = facts.program('asl')
+    u = facts.unit('as.c')
+    cons = c20.rule_r1(_Sub(chk, 'C19-R6', lambda key: False), facts, u, P)
+    c20.rule_r4(_Sub(chk, 'C19-R6', lambda key: True), facts, u, P, cons)
     chk.note('Decided: byte-swap parity of the listing, arguments and position of the debug/use-list bookkeeping, listing '
              'after code production, reports after the last pass. Not decided: rendered listing/MAP/share text.')
